@@ -36,15 +36,18 @@ pub struct Ctx {
     lines: u64,
     /// flush after every line (a worker process that may be killed mid-case)
     pub flush_each: bool,
+    /// write nothing (a run made only for its side records)
+    pub mute: bool,
 }
 
 impl Ctx {
     pub fn new(seed: u64, thorough: bool) -> Self {
         Ctx { rng: Rng(seed ^ 0x5eed_5eed), thorough, out: std::io::BufWriter::new(std::io::stdout()),
-              stats: BTreeMap::new(), samples: vec![], lines: 0, flush_each: false }
+              stats: BTreeMap::new(), samples: vec![], lines: 0, flush_each: false, mute: false }
     }
     pub fn line(&mut self, op: &str, obs: &str) {
         debug_assert!(!op.contains('\t') && !op.contains('\n') && !obs.contains('\t') && !obs.contains('\n'));
+        if self.mute { return; }
         let obs = if obs.is_empty() { "-" } else { obs };
         writeln!(self.out, "{}\t{}", op, obs).unwrap();
         if self.flush_each { self.out.flush().unwrap(); }
